@@ -127,7 +127,10 @@ class Gen:
     def c_cond(self, c):
         _, a, op, k = c
         # half of the conditions evaluate to a truth value other than 1 (a mask / count style condition)
+        # and some of those a value that is true only as long as it is not converted to an integer type (0.5)
         if (a + k) % 2:
+            if (3 * a + k) % 3 == 0:
+                return '((x->v[%d] %s %d) * 0.5)' % (a, op, k)
             return '((x->v[%d] %s %d) * %d)' % (a, op, k, 2 + a + k)
         return '(x->v[%d] %s %d)' % (a, op, k)
 
